@@ -53,7 +53,8 @@ def cases(tier, seed):
                 for pos in range(3):
                     if tier == "quick" and (pos + vi) % 2 == 1 and eta not in (0.0, 0.5, 1.0):
                         continue
-                    out.append(dict(kind="smoothed", dtype=dt, eta=eta, voxel=v, pos=pos, seed=seed, big=(tier == "thorough")))
+                    # all 65536 binary 4x4 fields: thorough tier, one (voxel, position) per (dtype, eta)
+                    out.append(dict(kind="smoothed", dtype=dt, eta=eta, voxel=v, pos=pos, seed=seed, big=(tier == "thorough" and vi == 0 and pos == 2)))
     return out
 
 
@@ -64,7 +65,7 @@ def bounds(tier, seed):
         "eta": ETAS,
         "x_grid": "k/256, k=0..256, plus eta, eta+-ulp, 1e-30, smallest subnormal, seed value; for beta=0 also {-1,-1e-3,1+1e-3,2}",
         "fields": "2x2 and 3x3: constants, ramps through eta (4 directions x slopes {1e-30,1e-6,0.1,1} x 3 offsets), nearly flat ramps from 0 (slopes 1e-100..1e-12), all binary 2x2 (16) and 3x3 (512), all 2x2 over {0,1/4,1/2,3/4,1} (625), seed pattern"
-        + ("; 4x4 ramps and all 4x4 binary arrays" if tier == "thorough" else ""),
+        + ("; 4x4 ramps and all 65536 binary 4x4 arrays (first voxel size, singleton axis last)" if tier == "thorough" else ""),
         "voxel_sizes": VOXELS if tier == "thorough" else VOXELS[:2],
         "singleton_axis_positions": [0, 1, 2],
         "seed": seed,
